@@ -15,7 +15,7 @@ LEVEL = 'other'
 EXPLANATION = ("System.supersize is proved on a cell with symbolic vectors, origin, relative coordinates (2 atoms) and a symbolic extra property, for a list of multiplier triples "
                "(positive, negative, two-sided): atom count and volume scale by the replication count, the new cell is the old one stretched by the multipliers with the origin "
                "shifted by the lower bounds, every replica (x,y,z,atom) appears exactly once at atom + x a + y b + z c with the atom's type and property values, and documented "
-               "refusals hold. The centring matrices are mutually inverse with the lattice-point multiplicity as determinant (proved in C16). System.rotate filters atoms with "
+               "refusals hold. The block of rotate that chooses the supercell range is extracted mechanically and proved for symbolic integer vectors: the corners are the subset sums and every point of the new cell lies inside the searched range with a margin of one cell. The centring matrices are mutually inverse with the lattice-point multiplicity as determinant (proved in C16). System.rotate filters atoms with "
                "a tolerance ladder and np.where (shape-changing) and then goes through normalize (lstsq, arccos): its crystal-level clauses and the conventional<->primitive "
                "conversions are a labelled bounded contract check against a lattice oracle.")
 ASSUMPTIONS = ["supersize proof: natoms = 2, relative coordinates symbolic; Cartesian->relative through its C01 contract", "rotate / conversions: bounded stand-in (np.where filtering, normalize)"]
@@ -366,3 +366,66 @@ def conversions_family(tier, seed):
                 fails.append({'obligation': 'conversions.post', 'key': key, 'input': key, 'detail': '; '.join(msgs[:2])})
     files = {rel: hashlib.sha256(open(os.path.join(REPO, rel), 'rb').read()).hexdigest() for rel in ('atomman/dump/conventional_to_primitive/dump.py', 'atomman/dump/primitive_to_conventional/dump.py')}
     return {'family': 'conventional <-> primitive', 'evaluations': evals, 'distinct_nontrivial': evals, 'rule': 'see group rule', 'samples': samples, 'failures': fails[:12], 'files': files}
+
+
+# ----------------------------------------------------------------------------
+# rotate: the block that chooses the supercell range (extracted mechanically) covers the new cell
+
+import ast as _ast
+from pyvc.extract import extract_range as _extract_range
+from pyvc.sym import realconst as _rc
+
+
+def _assign_to(name):
+    def sel(n):
+        return isinstance(n, _ast.Assign) and len(n.targets) == 1 and isinstance(n.targets[0], _ast.Name) and n.targets[0].id == name
+    return sel
+
+
+class _ObjAlloc(object):
+    """the facade, except that np.empty of an integer dtype allocates symbolic-capable storage (indices are mathematical integers; int64 wrap-around is not modelled)"""
+    def __getattr__(self, k):
+        return getattr(snp, k)
+
+    def empty(self, shape, dtype=None, **kw):
+        return snp.empty(shape, dtype=object)
+
+
+@group('rotate.supercell_range', files=[SYSF], functions=['System.rotate (block: corner multipliers)'],
+       clause='the block of rotate that chooses the supercell to cut the new cell from, for SYMBOLIC integer vectors: the eight corners are the subset sums of the three vectors, and every '
+              'point s1 u1 + s2 u2 + s3 u3 of the new cell (0 <= s <= 1) has each crystal coordinate between the smallest and the largest corner coordinate, which the chosen ranges '
+              'extend by one full cell on both sides: no atom of the new cell is outside the searched supercell', replay=_replay, timeout_ms=30000)
+def rotate_range(E, L):
+    block, info = _extract_range(L, SYSF, 'rotate', _assign_to('corners'), _assign_to('c_mults'))
+    E.prove('rotate.range.block_found', info['last_line'] > info['first_line'])
+    mod = L.load(SYSF)
+    U = E.ints('u', (3, 3))
+    s = E.reals('s', (3,))
+    for k in range(3):
+        E.assume(And(s[k] >= 0, s[k] <= 1))
+    E.canary('rotate.range.canary', U[0, 0] == 0)
+    real_np = mod.np
+    mod.np = _ObjAlloc()
+    try:
+        out = block(dict(uvws=U))
+    finally:
+        mod.np = real_np
+    corners = out['corners']
+    subsets = [(), (0,), (1,), (2,), (0, 1), (0, 2), (1, 2), (0, 1, 2)]
+    for k, sub in enumerate(subsets):
+        for j in range(3):
+            want = 0
+            for i in sub:
+                want = want + U[i, j]
+            E.prove('rotate.range.corner[%d,%d]' % (k, j), corners[k, j] == want)
+    for j, nm in enumerate(('a_mults', 'b_mults', 'c_mults')):
+        lo, hi = out[nm]
+        pj = s[0] * U[0, j] + s[1] * U[1, j] + s[2] * U[2, j]
+        # convexity, coordinate by coordinate: s_i u_ij >= min(0, u_ij) and <= max(0, u_ij)
+        lows = [snp.minimum(0, U[i, j]) for i in range(3)]
+        highs = [snp.maximum(0, U[i, j]) for i in range(3)]
+        for i in range(3):
+            E.lemma('rotate.range.term_bounds[%s][%d]' % (nm, i), And(s[i] * U[i, j] >= lows[i], s[i] * U[i, j] <= highs[i]))
+        E.prove('rotate.range.margin_below[%s]' % nm, lo + 1 <= pj)
+        E.prove('rotate.range.margin_above[%s]' % nm, pj <= hi - 1)
+        E.prove('rotate.range.is_corner_extreme_minus_plus_one[%s]' % nm, And(*[And(lo + 1 <= corners[k, j], corners[k, j] <= hi - 1) for k in range(8)]))
